@@ -114,6 +114,21 @@ pub fn misc(cfg: &Cfg, l: &[Act]) -> Vec<Act> {
             c.funds.insert(0, cosmwasm_std::coin(1, "aaa"));
             v.push(c);
         }
+        // the id of a (possibly open) order written in upper case, from the same and from another account
+        let respelt = match &a.req {
+            Req::CreateAsk { id, base, quote, price, size } => Some(Req::CreateAsk { id: id.to_uppercase(), base: base.clone(), quote: quote.clone(), price: price.clone(), size: *size }),
+            Req::CreateBid { id, base, fee, price, quote, quote_size, size } => {
+                Some(Req::CreateBid { id: id.to_uppercase(), base: base.clone(), fee: fee.clone(), price: price.clone(), quote: quote.clone(), quote_size: *quote_size, size: *size })
+            }
+            _ => None,
+        };
+        if let Some(req) = respelt {
+            let funds: Vec<(u128, &str)> = a.funds.iter().map(|c| (c.amount.u128(), c.denom.as_str())).collect();
+            if req != a.req {
+                v.push(Act::new(&a.sender, funds.clone(), req.clone()));
+                v.push(Act::new(cfg.roles.get("stranger"), funds, req));
+            }
+        }
     }
     v.push(Act::new(cfg.roles.get("exec"), vec![], Req::Modify(Modify::default())));
     v.push(Act::new(cfg.roles.get("stranger"), vec![], Req::Modify(Modify::default())));
